@@ -17,7 +17,7 @@ LEVEL = "model_checking"
 RULE = (
     "the operator expressions of C01 (depth 1-3 over the P/PC/TT/numeric alphabets, exact general position) plus, "
     "for every alphabet shape S of every kind, the law family S|~S, S&~S, S-S, S^S, S^~S, S|S, S&S, ~~S and the "
-    "Empty/Whole tables, also for compound shapes that were used and then moved in place; each executed on the real code and the returned object validated structurally "
+    "Empty/Whole tables (the laws also on 9 CURVED shapes: quadratic, genuine cubic, single-segment, mixed degrees, curved composites - expected singleton / == operand given by the law itself), also for compound shapes that were used and then moved in place; each executed on the real code and the returned object validated structurally "
     "(closed chains, no zero-length piece, no self-crossing, one outer boundary, holes inside and pairwise "
     "outside, components disjoint, sorted subshapes, kind tables, singletons by identity when the exact "
     "reference region is empty/whole on every arrangement face). non-trivial = result is not an operand copy; "
@@ -48,6 +48,10 @@ def cases(tier, seed):
     for base in (["PC", "two", "int"], ["PC", "hollow", "int"], ["PC", "xtwo", "int"], ["PC", "holeisland", "int"], ["L", "P.triA#int"], ["PC", "xhollow", "frac"]):
         mv = ["MV", base, 60, 45]
         specs.append({"id": "f:laws:" + al.expr_id(mv), "exprs": progs.law_exprs(mv), "deg": True})
+    # the singleton laws on CURVED shapes (degree 2 and genuine degree 3, single-segment, composite):
+    # the expected result is given by the law itself, no reference region is needed
+    for q in (["L", "Q.c8"], ["L", "Q.lens"], ["L", "Q.blob"], ["L", "Q.scub"], ["L", "Q.tear"], ["L", "Q.blob@cw"], ["L", "Q.mixg"], ["CQ", "ringc"], ["CQ", "twoc"]):
+        specs.append({"id": "f:curvedlaws:" + al.expr_id(q), "curved_laws": q})
     return specs
 
 
@@ -157,7 +161,53 @@ def judge(e, deg, hist, sigs):
     return fails
 
 
+def curved_laws(q):
+    """(expression, expected) with expected in E / W / 'same' (== the operand, same kind)."""
+    n = ["~", q]
+    return [
+        (["|", q, n], W), (["|", n, q], W), (["&", q, n], E), (["&", n, q], E), (["-", q, q], E), (["^", q, q], E), (["^", q, n], W),
+        (["|", q, q], "same"), (["&", q, q], "same"), (["~", n], "same"), (["-", q, ["E"]], "same"), (["&", q, ["W"]], "same"),
+    ]
+
+
+def run_curved_laws(spec):
+    from ..runner import call_limited
+
+    q = spec["curved_laws"]
+    viols, nontrivial, hist = [], [], {}
+    sigs = set()
+    for e, want in curved_laws(q):
+        eid = al.expr_id(e)
+        nontrivial.append(eid)
+        rep = {"id": "replay:" + eid, "curved_laws": q}
+        st, R = call_limited(lambda: al.lib_eval(e), oc.OP_LIMIT)
+        if st != "ok":
+            viols.append({"case_id": eid + " :: noresult", "what": "hangs" if st == "timeout" else "raises " + exc_str(R), "replay": rep})
+            continue
+        kind = rg.kind_of(R)
+        hist["result:" + kind] = hist.get("result:" + kind, 0) + 1
+        sigs.add(hash(rg.rep_sig(R, with_cache=False)))
+        if want in (E, W):
+            if kind != want:
+                viols.append({"case_id": eid + " :: singleton", "what": "the law gives %s but a %s was returned (area %r)" % (want, kind, float(R) if kind not in (E, W) else None), "replay": rep})
+            continue
+        S0 = al.lib_eval(q)
+        if kind != rg.kind_of(S0):
+            viols.append({"case_id": eid + " :: kind", "what": "a %s, the operand is a %s" % (kind, rg.kind_of(S0)), "replay": rep})
+            continue
+        st, eq = call_limited(lambda: R == S0, oc.OP_LIMIT)
+        if st != "ok" or eq is not True:
+            viols.append({"case_id": eid + " :: same", "what": "result == operand gives %r" % (eq if st == "ok" else st,), "replay": rep})
+        size = max(c.size() for c in rg.interpret(S0).curves())
+        for m in oc.wellformed(R, size):
+            viols.append({"case_id": eid + " :: malformed", "what": m, "replay": rep})
+            break
+    return {"violations": viols, "evals": len(nontrivial), "nontrivial": nontrivial, "states": len(sigs), "sig_hashes": sorted(sigs), "transitions": len(nontrivial), "hist": hist, "excluded": 0, "sample": {"expr": al.expr_id(q), "n_exprs": 12}}
+
+
 def run_case(spec):
+    if "curved_laws" in spec:
+        return run_curved_laws(spec)
     deg = spec.get("deg", False)
     hist, sigs = {}, set()
     viols, nontrivial = [], []
